@@ -96,7 +96,9 @@ def gen_plan(rng, tier, i, seed):
             "err": rng.choice(["OSError", "OSError", "ValueError"]),
             # configured minimum of zero: no depth is "below the minimum" any more, but a locus that no
             # read covers must still be refused
-            "min_avg_zero": rng.random() < 0.3}
+            "min_avg_zero": rng.random() < 0.3,
+            # multi-gene run: the healthy gene listed before or after the gene that lost its data
+            "healthy_first": rng.random() < 0.5}
 
 
 def _materialise(runner, w):
@@ -132,7 +134,8 @@ def execute(plan, runner, rundir):
     res = runner.segment(dict(common, kind="loss", hashseed=plan["hashseed"], rundir=rundir, route=plan["route"],
                               out=plan["out"], loss=plan["loss"], multi=plan["multi"], avg=pil["avg_a"],
                               k=plan["k"], which_open=plan["which_open"], err=plan["err"],
-                              warm=plan.get("warm", False), min_avg_zero=plan.get("min_avg_zero", False)))
+                              warm=plan.get("warm", False), min_avg_zero=plan.get("min_avg_zero", False),
+                              healthy_first=plan.get("healthy_first", False)))
     return {"pilot": pil, "run": res}
 
 
@@ -488,7 +491,7 @@ def run_segment(seg):
         streams.reset()
     if stream:
         SIM.cfg["stream"] = stream
-    db = f"{dba},{dbb}" if seg["multi"] else dba
+    db = (f"{dbb},{dba}" if seg.get("healthy_first") else f"{dba},{dbb}") if seg["multi"] else dba
     if route == "cn_dump":
         # write the archive through the CLI (the run itself is refused, the archive is still made) ...
         prefix = os.path.join(rd, "dbg")
